@@ -132,6 +132,11 @@ def corrupt_frame(rng, item: dict, kind: str) -> dict:
         new = (o[0] << 8 | o[1]) & 0xF800 | ((len(o) + rng.choice([-2, -1, 1, 2, 7])) & 0x7FF)
         o[0], o[1] = new >> 8, new & 0xFF
         o[-2:] = hdlc_ref.fcs_octets(bytes(o[:-2]))
+    elif kind == "hcs_rewrite_good_fcs":  # header check sequence wrong, frame check sequence recomputed: still intact by length + FCS
+        h = header_len(item)
+        if len(o) > h + 2:
+            o[h - 1 - rng.randrange(2)] ^= 1 << rng.randrange(8)
+            o[-2:] = hdlc_ref.fcs_octets(bytes(o[:-2]))
     elif kind == "fcs_corrupt":
         o[-1 - rng.randrange(2)] ^= 1 << rng.randrange(8)
     elif kind == "hdr_only":  # cut after the HCS: running FCS is "good", length is not
@@ -146,7 +151,7 @@ def corrupt_frame(rng, item: dict, kind: str) -> dict:
     return {"t": "rawframe", "hex": bytes(o).hex(), "fault": kind}
 
 
-FRAME_FAULTS = ["len_rewrite_keep_fcs", "len_rewrite_good_fcs", "fcs_corrupt", "hdr_only", "cut_mid", "append_junk", "bitflip"]
+FRAME_FAULTS = ["len_rewrite_keep_fcs", "len_rewrite_good_fcs", "hcs_rewrite_good_fcs", "fcs_corrupt", "hdr_only", "cut_mid", "append_junk", "bitflip"]
 
 
 # -- line-level faults applied to the assembled wire ---------------------------------------------
